@@ -745,6 +745,85 @@ func TestVerifC11InProcess(t *testing.T) {
 		}
 		mu.Unlock()
 	}()
+	// an in-process reference server that writes to its stderr BEFORE it answers the start request (a warning, or the
+	// reason why it cannot start): the line is passed through and the batch goes on / fails at once - the server is not
+	// left blocked on a stderr pipe that nobody reads yet
+	for _, fails := range []bool{false, true} {
+		wg.Add(1)
+		go func(fails bool) {
+			defer wg.Done()
+			n := 2
+			var testCases []*conformancev1.TestCase
+			expected := map[string]*conformancev1.ClientResponseResult{}
+			for i := 0; i < n; i++ {
+				exp := &conformancev1.ClientResponseResult{Payloads: []*conformancev1.ConformancePayload{{Data: []byte(fmt.Sprintf("payload-%d", i))}}}
+				testCases = append(testCases, &conformancev1.TestCase{Request: &conformancev1.ClientCompatRequest{TestName: vfC11Name(i)}, ExpectedResponse: exp})
+				expected[vfC11Name(i)] = exp
+			}
+			server := func(ctx context.Context, _ []string, in io.ReadCloser, out, errW io.WriteCloser) error {
+				req := &conformancev1.ServerCompatRequest{}
+				if err := internal.ReadDelimitedMessage(in, req, "runner", 10*time.Second, 1<<20); err != nil {
+					return err
+				}
+				_, _ = fmt.Fprintf(errW, "early stderr line: listen tcp 127.0.0.1:1: bind: address already in use\n")
+				if fails {
+					return errors.New("cannot start")
+				}
+				if err := internal.WriteDelimitedMessage(out, &conformancev1.ServerCompatResponse{Host: "127.0.0.1", Port: 1}); err != nil {
+					return err
+				}
+				<-ctx.Done()
+				return nil
+			}
+			results := newResults(n, &testTrie{}, &testTrie{}, nil)
+			client := &vfFakeClient{c: vfC11Case{N: n, Delivery: "sync"}, expected: expected}
+			errP := &vfC11Printer{}
+			start := time.Now()
+			done := make(chan struct{})
+			go func() {
+				defer close(done)
+				runTestCasesForServer(context.Background(), false, true, serverInstance{}, testCases, nil, nil, runInProcess([]string{"verif-server"}, server), &vfC11Printer{}, errP, results, client, nil, false)
+			}()
+			c := map[string]any{"batch": n, "server": "writes-stderr-before-answering", "fails-to-start": fails}
+			var viol error
+			select {
+			case <-done:
+			case <-time.After(60 * time.Second):
+				viol = verifkit.Violf("early-stderr-hang", "batch against a reference server that writes to stderr before answering did not end within 60s")
+			}
+			if viol == nil {
+				took := time.Since(start)
+				results.mu.Lock()
+				for i := 0; i < n && viol == nil; i++ {
+					o, ok := results.outcomes[vfC11Name(i)]
+					switch {
+					case !ok:
+						viol = verifkit.Violf("early-stderr-outcome", "case %d has no outcome", i)
+					case fails && !o.setupError:
+						viol = verifkit.Violf("early-stderr-outcome", "the server failed to start but case %d is not a setup error", i)
+					case !fails && (o.setupError || o.actualFailure != nil):
+						viol = verifkit.Violf("early-stderr-server-blocked", "the server wrote a line to stderr and then answered the start request, but case %d: setupError=%v failure=%v (batch took %v)", i, o.setupError, o.actualFailure, took)
+					}
+				}
+				results.mu.Unlock()
+				errP.mu.Lock()
+				forwarded := strings.Join(errP.lines, "\n")
+				errP.mu.Unlock()
+				if viol == nil && !strings.Contains(forwarded, "early stderr line") {
+					viol = verifkit.Violf("early-stderr-lost", "the server's stderr line written before its answer was not passed through (fails to start: %v, batch took %v); forwarded: %q", fails, took, forwarded)
+				}
+				if viol == nil && took > 8*time.Second {
+					viol = verifkit.Violf("early-stderr-server-blocked", "the batch took %v: the runner sat out its start-up timeout although the server had answered / given up at once", took)
+				}
+			}
+			mu.Lock()
+			en.Rec.Observe(c, []string{"early-stderr", fmt.Sprintf("fails:%v", fails)}, true)
+			if viol != nil {
+				en.Fail(c, viol)
+			}
+			mu.Unlock()
+		}(fails)
+	}
 	wg.Wait()
 	en.Done(true)
 }
